@@ -103,6 +103,20 @@ ExpLog(fv) ==
    body |-> fv.body, attrs |-> fv.attrs, dropped |-> ExpC32(fv.dropped), ids |-> fv.ids, flags |-> fv.flags]
 
 (* ---- metrics (metrics/v1 Metric): which field exists for which aggregation *)
+(* Bucket layout classes.  bucket_counts (explicit histogram) and the positive / *)
+(* negative Buckets.bucket_counts (+ offset) of an exponential histogram are     *)
+(* repeated fields that an exporter carries VERBATIM ("identical bucket          *)
+(* layouts"): a zero count is a bucket, not padding.  ZeroShape gives, per       *)
+(* class, where the count lists of the class hold zeros; classes L1..L4 vary     *)
+(* bounds / scale / magnitudes, L5..L8 vary the zero pattern.  The expected      *)
+(* layout of every class is the class itself (ExpDP.lay): no list may be         *)
+(* shortened, padded, shifted or dropped on the way.                             *)
+ZeroShape ==
+  [ L1 |-> "none",     L2 |-> "nolayout", L3 |-> "leading", L4 |-> "none",
+    L5 |-> "trailing",   \* lists END in zeros (and hold one inside): [1,0,2,0,0] / [5,0]; explicit [1,0,2,0]
+    L6 |-> "leading",    \* lists START with zeros: [0,0,3] / [0,7]; explicit [0,0,3,4]
+    L7 |-> "allzero",    \* only zeros, non-zero offsets: [0,0,0]@4 / [0]@-2; explicit [0,0,0,0]
+    L8 |-> "empty" ]     \* EMPTY lists with non-zero offsets: []@7 / []@-7; explicit: bounds without counts
 HistLike(agg) == agg \in {"hist", "exphist"}
 ExpEx(num, x) == [fa |-> ExpA(x.fa), time |-> ExpT(x.time), val |-> x.val, ids |-> x.ids, num |-> num]
 ExpDP(agg, num, dp) ==
